@@ -5,7 +5,7 @@
     [f : fixes] selects the code: [fx_none] = the pinned tree, [fx<n> f = true]
     = after fixes/C10-F<n>.diff.  A guard is [false] whenever its fix is applied, so
     every theorem below is unguarded for the repaired code. *)
-From HV Require Import Base.Prelude Base.Time C10.Model C10.Proofs.
+From HV Require Import Base.Prelude Base.Time C10.Model C10.Proofs Run.Eval_C10 C10.Sound.
 Open Scope Z_scope.
 
 (** an introspection response / JWK / session / access token is stored only with
@@ -144,3 +144,41 @@ Theorem C10_nonvacuous :
   store fx_none MClientCred None (Some (secs 1100)) (secs 1000) = Some (secs 95).
 Proof. exact nonvacuous_ttl. Qed.
 Print Assumptions C10_nonvacuous.
+
+(** ** the correspondence evaluator is sound w.r.t. these theorems
+
+    [Run.Eval_C10.check f c] computes, for a generated case [c] and the
+    implementation's observation in it: [v_corr] (the model answers like the
+    implementation), [v_prop] (the property predicate, written from the property
+    text, on the observation) and the finding guards.  For EVERY case of the four
+    kinds below -- all inputs, all observations -- correspondence without a firing
+    guard implies the property predicate: a property failure on an unguarded input
+    is always a disagreement between implementation and model. *)
+Theorem C10_check_sound_fn : forall f m st exp now dmax o,
+  0 <= dmax <= max_delay ->
+  let v := check f (CFn m st exp now dmax o) in
+  v_corr v = true -> v_guards v = [] -> v_prop v = true.
+Proof. exact check_sound_fn. Qed.
+Print Assumptions C10_check_sound_fn.
+
+Theorem C10_check_sound_exec : forall f m conf rule exp now dmax o,
+  0 <= dmax <= max_delay ->
+  wf_exec m exp ->
+  let v := check f (CExec m conf rule exp now dmax o) in
+  v_corr v = true -> v_guards v = [] -> v_prop v = true.
+Proof. exact check_sound_exec. Qed.
+Print Assumptions C10_check_sound_exec.
+
+Theorem C10_check_sound_http : forall f b cachable life dflt dmax o_set o_hit,
+  0 <= dmax ->
+  let v := check f (CHttp b cachable life dflt dmax o_set o_hit) in
+  v_corr v = true -> v_guards v = [] -> v_prop v = true.
+Proof. exact check_sound_http. Qed.
+Print Assumptions C10_check_sound_http.
+
+(** expiry enforcement of both cache semantics, for all operation sequences *)
+Theorem C10_check_sound_cache : forall f b ops,
+  let v := check f (CCache b ops) in
+  v_corr v = true -> v_guards v = [] -> v_prop v = true.
+Proof. exact check_sound_cache. Qed.
+Print Assumptions C10_check_sound_cache.
